@@ -288,6 +288,16 @@ func (bm ConnectedBitmask) XorCopy(other ConnectedBitmask) ConnectedBitmask {
 	}
 	new = append(new, bm.entries[aIdx:]...)
 	new = append(new, other.entries[bIdx:]...)
+	// the xor of touching runs produces touching runs, merge them to keep the entries normalized
+	merged := new[:0]
+	for _, e := range new {
+		if l := len(merged); l != 0 && merged[l-1].max+1 == e.min {
+			merged[l-1].max = e.max
+			continue
+		}
+		merged = append(merged, e)
+	}
+	new = merged
 	return ConnectedBitmask{new}
 }
 
